@@ -32,6 +32,7 @@ func checkC01(p *Prog, r *Report) {
 	ruleC01TreeHop(p, a, r)
 	ruleC01Operand(p, a, r)
 	ruleC01Balance(p, a, r)
+	ruleC01Height(p, a, r)
 	ruleC01DerefBound(p, a, r)
 	ruleC01RuneGuard(p, a, r)
 	ruleC01Rewrap(p, a, r)
